@@ -57,3 +57,27 @@ PROPS["C20"] = dict(
                                              "histories_string_nocase": 1, "histories_binary_case": 1, "exhaustive_histories": 1000}),
     assumptions=[A_SAN, A_GEN, "values are distinct non-NULL tokens so a NULL return is unambiguous"],
 )
+
+PROPS["C15"] = dict(
+    title="Endpointed speech segments are exact excerpts with consistent timestamps",
+    level="exploration",
+    technique="online trace checker over observable endpointer history (scripted VAD decisions via hook, and shadow-VAD on real audio), under ASan/UBSan",
+    level_text="exploration with an exhaustive sub-domain: for a grid of 40 (window, ratio) settings every speech/non-speech decision "
+               "string of length <= 13 (quick) / 17 (thorough) is fed through the real endpointer (decisions scripted through the "
+               "guarded VAD hook), each followed by end_stream; random long decision strings over random accepted "
+               "(window, ratio, frame length, sample rate) and real-audio streams with a shadow VAD (hook inactive) come on top.",
+    level_note="the oracle derives start/end decisions from the observable history only; where the implementation's integer rounding of "
+               "the end threshold and the real-valued reading of the statement disagree either is accepted; WebRTC VAD determinism is "
+               "assumed in shadow-VAD mode",
+    rule="case < 40: exhaustive enumeration for one (window, ratio) grid point; other cases: one stream (scripted Markov decision string "
+         "of 1..5000 frames, or 4-25 s of spliced speech/noise/silence). Non-trivial = at least one segment was produced (or the "
+         "exhaustive grid point ran); distinct = distinct case index with its observed segment/frame counts.",
+    exhaustive=False,
+    exhaustive_note="decision strings up to the length bound are enumerated completely for the 40-point grid; everything else is sampled",
+    stages=[
+        dict(harness="h_endpoint", flavor="asan", quick=40 + 260, thorough=40 + 4000, leaks=True),
+    ],
+    floor=dict(min_evaluations=40, counters={"starts": 100, "ends": 100, "end_stream_drained": 10, "end_stream_cut_at_nonspeech": 10,
+                                            "start_before_window_full": 10, "audio_streams": 5, "exhaustive_strings": 10000}),
+    assumptions=[A_SAN, A_GEN, "hook ssv_vad_script only replaces the classifier's return value"],
+)
